@@ -24,7 +24,7 @@ import wire
 from props.common import quiet_ccp
 
 ID = "C18"
-LEAN_MODULES = ["Ccp.Props.C18"]
+LEAN_MODULES = ["Ccp.Props.C18", "Ccp.Props.RxC18"]
 SCRATCH = os.environ.get("C18_SCRATCH", tempfile.gettempdir())
 
 RULE = (
@@ -73,6 +73,7 @@ LEVEL_NOTE = (
     "obtained by direct API calls; C04/C10). In line mode with --exclude-hosts the code drops a line as soon as one of its contained words is a "
     "host; the theorem states that reading."
 )
+LEVEL_NOTE += (" " + "regexes_as_modelled (Ccp.RxC18): the argparse / getattr defaults of cli_script.py (--word_delimiter \\s+, --regex '.', --delimiter ',', --output raw_text, --syntax ios, --method diff), the literal separators of ipgrep / macgrep and the re.I flag of MACEUISearch.search_all_formats are re-read from /repo's AST on every run and proved equal to what Model/Cli.lean and this harness hard-wire (the regex engine itself is a parameter of the model).")
 EXHAUSTIVE = {"quick": False, "thorough": False}
 ASSUMPTIONS = [
     "no word is accepted both by IPv4Obj and by IPv6Obj (checked on every generated word; the theorems that need it take it as hypothesis `Disjoint`)",
